@@ -8,6 +8,7 @@ import (
 	"go/types"
 	"os"
 	"path/filepath"
+	"runtime/debug"
 	"sort"
 	"strings"
 	"sync"
@@ -271,6 +272,9 @@ func (e *Engine) VerifyFunction(key string) *FnResult {
 		defer func() {
 			if r := recover(); r != nil {
 				res.Errs = append(res.Errs, fmt.Sprintf("engine panic: %v (last contract evaluation error: %s)", r, x.lastEvalErr))
+				if os.Getenv("GOVC_DEBUG") != "" {
+					fmt.Fprintf(os.Stderr, "%s\n", debug.Stack())
+				}
 			}
 		}()
 		x.verifyBody()
@@ -459,13 +463,18 @@ func (e *Engine) Discharge(results []*FnResult, timeoutS int, workers int) {
 			}
 			asserts = r.tb.instantiate(asserts, 2)
 			asserts = append(r.ctx.relevantAxioms(asserts), asserts...)
+			hc := r.tb.hashCongruence(asserts)
+			asserts = append(asserts, hc...)
+			r.tb.dropCaAxioms = ob.Cover
 			it := workItem{ob: ob, script: r.tb.Script(asserts, true, "ALL")}
+			r.tb.dropCaAxioms = false
 			if !ob.Cover && len(ob.Asserts) == 2 {
 				sl := r.tb.sliceHyps(ob.Asserts[0], ob.Asserts[1])
 				if sl != nil {
 					full := []*Term{sl, ob.Asserts[1]}
 					full = r.tb.instantiate(append(r.ctx.relevantAxioms(full), full...), 2)
 					full = append(r.ctx.relevantAxioms(full), full...)
+					full = append(full, r.tb.hashCongruence(full)...)
 					it.sliced = r.tb.Script(full, false, "ALL")
 				}
 				if hasQuant(ob.Asserts[0]) {
@@ -476,6 +485,7 @@ func (e *Engine) Discharge(results []*FnResult, timeoutS int, workers int) {
 					}
 					rel := []*Term{r.tb.dropForalls(base, map[int]*Term{}), ob.Asserts[1]}
 					rel = append(r.ctx.relevantAxioms(rel), rel...)
+					rel = append(rel, r.tb.hashCongruence(rel)...)
 					it.relaxed = r.tb.Script(rel, false, "ALL")
 				}
 			}
